@@ -16,6 +16,9 @@ NOTE = ("Trusted base: go/types, go/ssa and the VTA call graph of golang.org/x/t
 T = {}
 def claim(i, text, tech): T[i] = (text, tech, None)
 def na(i, reason): T[i] = (None, None, reason)
+def extra(i, text):
+    t = T[i]
+    T[i] = (t[0] + ' Also decided (added after the seeded-change campaign): ' + text, t[1], t[2])
 
 exec(open(os.path.join(here, 'tools', 'claims.py')).read())
 
